@@ -1,5 +1,5 @@
 import BHS.Props.C13
-import BHS.Props.SqlShape
+import BHS.Props.SqlShape.GetHeaders
 import BHS.Props.HeaderSvcGen
 open BHS.Props.C13
 #print axioms C13_locator
